@@ -69,7 +69,7 @@ def ensure_facts(repo=REPO):
             olds = [os.path.join(CACHE, o) for o in os.listdir(CACHE)
                     if os.path.isdir(os.path.join(CACHE, o)) and o != key]
             olds.sort(key=lambda p: os.path.getmtime(p), reverse=True)
-            for p in olds[int(os.environ.get("TDQ_CACHE_KEEP", "12")):]:
+            for p in olds[int(os.environ.get("TDQ_CACHE_KEEP", "80")):]:
                 shutil.rmtree(p, ignore_errors=True)
             tmp = d + ".tmp"
             shutil.rmtree(tmp, ignore_errors=True)
